@@ -39,10 +39,10 @@ func genericReplay(e *Env) int {
 			c.Main = m
 		}
 		if cx, ok := cs["ctx"].(map[string]any); ok {
-			c.Ctx = cx
+			c.Ctx = jsonInts(cx).(map[string]any)
 		}
 		if g, ok := cs["globals"].(map[string]any); ok {
-			c.Globals = g
+			c.Globals = jsonInts(g).(map[string]any)
 		}
 		c.Prime, c.Config = str("prime"), str("config")
 	case "src":
@@ -55,7 +55,7 @@ func genericReplay(e *Env) int {
 		}
 		c.Templates["main"] = src
 		if cx, ok := cs["ctx"].(map[string]any); ok {
-			c.Ctx = cx
+			c.Ctx = jsonInts(cx).(map[string]any)
 		}
 	default:
 		return -1
@@ -92,4 +92,24 @@ func genericReplay(e *Env) int {
 		fmt.Println("this input passes now (a history-dependent violation needs the whole check: ./check <id> quick)")
 	}
 	return status
+}
+
+// jsonInts: a JSON decoder delivers every number as float64; the recorded contexts hold Go ints (the only number
+// the generators and the model driver's encoding know), so whole numbers within +-2^53 become int again.
+func jsonInts(v any) any {
+	switch x := v.(type) {
+	case float64:
+		if x == float64(int64(x)) && x <= 1<<53 && x >= -(1<<53) {
+			return int(x)
+		}
+	case []any:
+		for i := range x {
+			x[i] = jsonInts(x[i])
+		}
+	case map[string]any:
+		for k := range x {
+			x[k] = jsonInts(x[k])
+		}
+	}
+	return v
 }
